@@ -57,7 +57,12 @@ func genS(t *rapid.T) (SCase, *env.Env) {
 		t.Fatalf("HARNESS: %v", err)
 	}
 	segMS := int64(e.Asset.LoopMS) / int64(len(e.Asset.Ref.Segs))
-	cfg := gen.Cfg(t, []string{"number", "time", "tlnr"}, segMS, false)
+	// availabilityTimeOffset (from a quarter of a segment to more than a segment) does not move the schedule: cycles are counted on
+	// the media timeline. Requests are made after the segment's end in any case.
+	cfg := gen.Cfg(t, []string{"number", "time", "tlnr"}, segMS, rapid.IntRange(0, 2).Draw(t, "with-ato") == 0)
+	if cfg.AtoInf() {
+		cfg.AtoMS = 2*segMS + 500
+	}
 	cfg.TsbdS, cfg.HasTsbd = 60, false
 	if tg.Layout != nil && tg.Layout.AvgSegMS() < 1000 {
 		cfg.Extra = []string{"mup_1"}
@@ -115,7 +120,9 @@ func checkS(c SCase, e *env.Env) (*hx.Violation, sinfo) {
 	if rep == nil {
 		return hx.V("harness", "rep"), inf
 	}
-	tl := refmodel.NewTimeline(e.Asset, rep, c.Cfg)
+	noAto := c.Cfg
+	noAto.AtoMS = 0
+	tl := refmodel.NewTimeline(e.Asset, rep, noAto) // instants and indices without the offset
 	parts := c.Cfg.Parts()
 	with := append(append([]string{}, parts...), c.param())
 	ts := tl.TS()
@@ -196,6 +203,9 @@ func TestC14StatusCodes(t *testing.T) {
 		cls := []string{"sc", "sc:addr:" + c.Cfg.Type}
 		if c.Cfg.StartS != 0 {
 			cls = append(cls, "sc:start!=0")
+		}
+		if c.Cfg.AtoMS != 0 {
+			cls = append(cls, "sc:ato!=0")
 		}
 		if c.Cfg.Snr != 0 {
 			cls = append(cls, "sc:snr!=0")
